@@ -1056,6 +1056,7 @@ class Executor(ExprMixin, StmtMixin, Engine):
         self.cur_fn_stack = [key]
         self.mutated_globals = mutated_global_names(fdef)
         self.concat_axioms = bool(getattr(c, 'options', {}).get('concat_axioms'))
+        self.slice_axioms = bool(getattr(c, 'options', {}).get('slice_axioms'))
         st = self.initial_state(c)
         # class-typed first parameter of classmethods
         for (pn, pt, *rest) in c.params:
